@@ -225,12 +225,20 @@ impl DocumentBlock {
             DocumentBlock::CodeBlock(code) => code.line_range.clone(),
             DocumentBlock::RawBlock(raw) => raw.line_range.clone(),
             DocumentBlock::BlockQuote(quote) => quote.line_range.clone(),
-            DocumentBlock::OrderedList(list) => {
-                list.items.first().unwrap().first().unwrap().line_range()
-            }
-            DocumentBlock::BulletList(list) => {
-                list.items.first().unwrap().first().unwrap().line_range()
-            }
+            DocumentBlock::OrderedList(list) => list
+                .items
+                .iter()
+                .flatten()
+                .next()
+                .map(|block| block.line_range())
+                .unwrap_or(0..0),
+            DocumentBlock::BulletList(list) => list
+                .items
+                .iter()
+                .flatten()
+                .next()
+                .map(|block| block.line_range())
+                .unwrap_or(0..0),
             DocumentBlock::Header(header) => header.line_range.clone(),
             DocumentBlock::HorizontalRule(hr) => hr.line_range.clone(),
             DocumentBlock::Div(div) => div.line_range.clone(),
